@@ -56,6 +56,33 @@ pub fn install() {
     }));
 }
 
+struct NoopLogger;
+impl log::Log for NoopLogger {
+    fn enabled(&self, _: &log::Metadata) -> bool {
+        true
+    }
+    fn log(&self, record: &log::Record) {
+        // format the message (so that a panicking or expensive Display impl in a log statement is exercised) and drop it
+        let _ = format!("{}", record.args()).len();
+    }
+    fn flush(&self) {}
+}
+static NOOP_LOGGER: NoopLogger = NoopLogger;
+
+/// Installs a logger that accepts everything and discards it. The maximum level starts at Off (the configuration of a
+/// host that never set up logging); `set_trace_logging(true)` switches to the configuration of a host that logs at
+/// Trace level. Code under test that takes a different path when `log_enabled!` is true is explored in both.
+pub fn install_logger() {
+    let _ = log::set_logger(&NOOP_LOGGER);
+    log::set_max_level(log::LevelFilter::Off);
+}
+pub fn set_trace_logging(on: bool) {
+    log::set_max_level(if on { log::LevelFilter::Trace } else { log::LevelFilter::Off });
+}
+pub fn trace_logging() -> bool {
+    log::max_level() == log::LevelFilter::Trace
+}
+
 pub fn panics_observed() -> u64 {
     PANICS.load(Relaxed)
 }
